@@ -14,7 +14,7 @@ import sys
 
 SRC = os.environ.get("VERIF_REPO_SRC", "/repo/src")
 LOADED = {}
-MUTATORS = []  # in-memory AST mutators (sensitivity self-test only): callables (fullname, tree) -> tree
+MUTATORS = []  # in-memory source mutators (sensitivity self-test only): callables (fullname, source_text) -> source_text
 
 
 class _T(ast.NodeTransformer):
@@ -49,6 +49,9 @@ class _T(ast.NodeTransformer):
         return ast.copy_location(call, node)
 
 
+PLAIN = False  # True: apply the source mutators only (replay of a self-test mutant on otherwise real code)
+
+
 class _Loader(importlib.abc.Loader):
     def __init__(self, path, fullname):
         self.path = path
@@ -58,17 +61,18 @@ class _Loader(importlib.abc.Loader):
         return None
 
     def exec_module(self, module):
-        from . import vf_time  # pylint: disable=import-outside-toplevel
-
         with open(self.path, encoding="utf-8") as f:
             src = f.read()
-        tree = ast.parse(src, self.path)
         for mut in MUTATORS:
-            tree = mut(self.fullname, tree) or tree
-        tree = _T().visit(tree)
-        ast.fix_missing_locations(tree)
+            src = mut(self.fullname, src)
+        tree = ast.parse(src, self.path)
+        if not PLAIN:
+            from . import vf_time  # pylint: disable=import-outside-toplevel
+
+            tree = _T().visit(tree)
+            ast.fix_missing_locations(tree)
+            module.__dict__["__vf_fstr__"] = vf_time.vf_fstr
         code = compile(tree, self.path, "exec")
-        module.__dict__["__vf_fstr__"] = vf_time.vf_fstr
         LOADED[self.fullname] = self.path
         exec(code, module.__dict__)  # pylint: disable=exec-used
 
@@ -88,6 +92,15 @@ class Finder(importlib.abc.MetaPathFinder):
 
 
 _INSTALLED = False
+
+
+def install_plain_mutant(mutator):
+    """self-test only: real rp2 code (no substrate, no stubs) with one source-level mutation applied"""
+    global PLAIN, _INSTALLED
+    PLAIN = True
+    _INSTALLED = True
+    MUTATORS.append(mutator)
+    sys.meta_path.insert(0, Finder())
 
 
 def install():
